@@ -632,6 +632,8 @@ class IrToWasmCompiler:
             opcode = self.binop_map[tree.name]
             self.stack -= 1
             self.emit(opcode)
+            if tree.name[:3] in ("ADD", "SUB", "MUL", "SHL"):
+                self.emit_wrap(tree.name[3:])
         elif tree.name in self.mov_operators:
             self.do_tree(tree[0])
             self.emit("local.set", self.get_value(tree.value))
@@ -643,6 +645,7 @@ class IrToWasmCompiler:
             self.emit("i32.const", 0)
             self.do_tree(tree[0])
             self.emit("i32.sub")
+            self.emit_wrap(tree.name[3:])
         elif tree.name == "NEGI64":
             self.emit("i64.const", 0)
             self.do_tree(tree[0])
@@ -688,11 +691,13 @@ class IrToWasmCompiler:
             self.stack += 1
         elif tree.name in self.cast_operators:
             self.do_tree(tree[0])
+            self.emit_wrap(tree.name.split("TO")[1])
         elif tree.name in self.cast_operators2:
             self.do_tree(tree[0])
             opcodes = self.cast_operators2[tree.name]
             for opcode in opcodes:
                 self.emit(opcode)
+            self.emit_wrap(tree.name.split("TO")[1])
         elif tree.name == "CALL":
             function_name, argv, rv = tree.value
             for _, argument in argv:
@@ -740,6 +745,27 @@ class IrToWasmCompiler:
             # Jump is handled by shapes!
         else:  # pragma: no cover
             raise NotImplementedError(str(tree))
+
+    def emit_wrap(self, ty_name):
+        """Bring the value on top of the stack back into the range of
+        a type that is narrower than the wasm type that holds it.
+
+        Sub-word integers live in an i32 (signed ones sign extended) and
+        u32 lives in an i64. Arithmetic on the wider type can leave this
+        range, wrap around like the narrow type does.
+        """
+        if ty_name in ("I8", "I16"):
+            shift = 24 if ty_name == "I8" else 16
+            self.emit("i32.const", shift)
+            self.emit("i32.shl")
+            self.emit("i32.const", shift)
+            self.emit("i32.shr_s")
+        elif ty_name in ("U8", "U16"):
+            self.emit("i32.const", 0xFF if ty_name == "U8" else 0xFFFF)
+            self.emit("i32.and")
+        elif ty_name == "U32":
+            self.emit("i64.const", 0xFFFFFFFF)
+            self.emit("i64.and")
 
     def get_ty(self, ir_ty):
         """Get the right wasm type for an ir type"""
